@@ -55,39 +55,18 @@ Proof. intros w; split; [apply leaf_state_inv|split; [exact I|reflexivity]]. Qed
 Print Assumptions C09_nonvacuous.
 
 (* ---- the full statement (open for the structural operations: tested by the correspondence check only) ------------------ *)
-(* guard of the known finding roll-inner-waveform: roll_constant_waveforms is not applied while some node below the
-   target has both children and a waveform *)
-Fixpoint no_inner_wf (fuel : nat) (h : heap) (x : id) : bool :=
-  match fuel with
-  | O => false
-  | S f => match get h x with
-           | None => false
-           | Some n => (match children n, wform n with _ :: _, Some _ => false | _, _ => true end)
-                       && forallb (no_inner_wf f h) (children n)
-           end
-  end.
-Definition guard_C09_roll_inner_waveform (s : state) (o : op) : bool :=
-  match o with
-  | ORoll p _ _ _ => match resolve (st_heap s) (st_root s) p with
-                     | Some x => no_inner_wf (S (length (st_heap s))) (st_heap s) x
-                     | None => true
-                     end
-  | _ => true
-  end.
 Definition C09_step_statement : Prop := forall s o s' out,
-  sInv s -> guard_C09_roll_inner_waveform s o = true -> step s o = (s', out) -> out_ok out -> sInv s'.
+  sInv s -> step s o = (s', out) -> out_ok out -> sInv s'.
+Definition C09_history_statement : Prop := forall ops s, sInv s -> run_ok s ops -> sInv (run s ops).
 
 (* the model's own observation passes the check that is applied to the implementation's observation *)
 Definition obs_ok (s : state) : bool :=
   match observe s with Some t => spec_tree t [] true 0 [] | None => false end.
 
-(* known finding roll-inner-waveform: a 3-operation history after which the faithful model reports a stale duration *)
+(* regression of the repaired finding roll-inner-waveform (36dc22a): the former 3-operation witness now keeps the
+   observable invariant in the model (a test by evaluation, not a proof about all histories) *)
 Definition roll_witness_init : tspec := TS (RInt 3) None None [TS (RInt 2) (Some (WConst 16 2)) None []].
 Definition roll_witness_ops : list op :=
   [OAppend [0%nat] (TS (RInt 2) (Some (WConst 1 2)) None []); OQueryDur []; ORoll [] 2 2 1].
-Theorem C09_roll_inner_waveform_refuted :
-  obs_ok (run (init_state roll_witness_init) (firstn 2 roll_witness_ops)) = true /\
-  obs_ok (run (init_state roll_witness_init) roll_witness_ops) = false /\
-  guard_C09_roll_inner_waveform (run (init_state roll_witness_init) (firstn 2 roll_witness_ops)) (ORoll [] 2 2 1) = false.
-Proof. vm_compute. repeat split. Qed.
-Print Assumptions C09_roll_inner_waveform_refuted.
+Example C09_roll_witness_now_ok : obs_ok (run (init_state roll_witness_init) roll_witness_ops) = true.
+Proof. vm_compute. reflexivity. Qed.
